@@ -16,7 +16,7 @@
 //!   S:<path>:<n>   create a file                           -> add_source(path, out path)
 //!   R:<path>       remove a file                           -> remove_source(path)
 //!   D:<path>       remove a directory                      -> remove_source(path)
-//!   C:<k>          replace the configuration file          -> (nothing, as the watcher)
+//!   C:<k>          replace the configuration file          -> source_changed(config path)
 //!   P              process
 
 use std::collections::BTreeMap;
@@ -416,6 +416,10 @@ impl World {
             }
             Ev::Config(k) => {
                 self.write(CONFIG, config_text(*k));
+                // the watcher also watches the configuration file: a Modify event arrives
+                if let Some(tree) = self.tree.as_mut() {
+                    tree.source_changed(CONFIG);
+                }
             }
             Ev::Process => {
                 if let Some(tree) = self.tree.as_mut() {
@@ -456,6 +460,16 @@ fn run_history(history: &[Ev], verbose: bool) -> Value {
     for (position, event) in full.iter().enumerate() {
         let outcome = catch_unwind(AssertUnwindSafe(|| world.apply(event)));
         let mut step = json!({ "ev": event.render() });
+        let written = match event {
+            Ev::Edit(path, _) | Ev::Break(path) | Ev::Add(path, _) | Ev::AddSource(path, _) => {
+                Some(path.as_str())
+            }
+            Ev::Config(_) => Some(CONFIG),
+            _ => None,
+        };
+        if let Some(content) = written.and_then(|path| world.user_files.get(path)) {
+            step["content"] = json!(intern(content));
+        }
         match outcome {
             Err(payload) => {
                 let text = panic_text(payload);
@@ -473,16 +487,6 @@ fn run_history(history: &[Ev], verbose: bool) -> Value {
                     step["process_error"] = Value::String(text);
                 }
             }
-        }
-        let written = match event {
-            Ev::Edit(path, _) | Ev::Break(path) | Ev::Add(path, _) | Ev::AddSource(path, _) => {
-                Some(path.as_str())
-            }
-            Ev::Config(_) => Some(CONFIG),
-            _ => None,
-        };
-        if let Some(content) = written.and_then(|path| world.user_files.get(path)) {
-            step["content"] = json!(intern(content));
         }
         if let Some(tree) = world.tree.as_ref() {
             step["state"] = dump_json(tree);
